@@ -76,23 +76,29 @@ structure Oracle where
 
 /-- `BuildCertBody(c, prk, req)`; `reqSpki` = public key info of a stored certificate request -/
 def buildCertBody (c : V1.CertificateContent) (prk : Option PrivKey) (reqSpki : Option Spki) (o : Oracle) :
-    R Context := do
-  let builders ← c.extensions.mapM V1.Ext.builder
-  let subject := if c.subject.isEmpty then defaultSubject else c.subject   -- `subject != nil`
-  let serial : Int := if c.serialNumber ≠ 0 then c.serialNumber else o.serial
-  let (key, spki) : Option PrivKey × Spki :=
-    match prk, reqSpki with
-    | some k, _ => (some k, k.spki)
-    | none, some r => (none, r)
-    | none, none => (some o.freshKey, o.freshKey.spki)
-  let m := c.manipulations
-  let spki1 : Spki := match m.tbsPublicKeyAlgorithm with | some a => { spki with alg := ⟨a, none⟩ } | none => spki
-  let spki2 : Spki := match m.tbsPublicKey with | some b => { spki1 with bits := ⟨b, 8 * b.length⟩ } | none => spki1
-  pure { tbs := { version := m.version.getD 2, serial := serial,
-                  sigAlg := m.tbsSignature.map (⟨·, none⟩), issuer := subject,
-                  notBefore := c.validity.from_, notAfter := c.validity.until_, subject := subject, spki := spki2,
-                  issuerUid := c.issuerUniqueId, subjectUid := c.subjectUniqueId, exts := [] },
-         key := key, builders := builders }
+    R Context :=
+  match c.extensions.mapM V1.Ext.builder with
+  | .error e => .error e
+  | .ok builders =>
+    let subject := if c.subject.isEmpty then defaultSubject else c.subject   -- `subject != nil`
+    let serial : Int := if c.serialNumber ≠ 0 then c.serialNumber else o.serial
+    -- a stored private key is reused; else the public key of a stored request; else a fresh key
+    let key : Option PrivKey := match prk, reqSpki with
+      | some k, _ => some k
+      | none, some _ => none
+      | none, none => some o.freshKey
+    let spki : Spki := match prk, reqSpki with
+      | some k, _ => k.spki
+      | none, some r => r
+      | none, none => o.freshKey.spki
+    let m := c.manipulations
+    let spki1 : Spki := match m.tbsPublicKeyAlgorithm with | some a => { spki with alg := ⟨a, none⟩ } | none => spki
+    let spki2 : Spki := match m.tbsPublicKey with | some b => { spki1 with bits := ⟨b, 8 * b.length⟩ } | none => spki1
+    .ok { tbs := { version := m.version.getD 2, serial := serial,
+                   sigAlg := m.tbsSignature.map (⟨·, none⟩), issuer := subject,
+                   notBefore := c.validity.from_, notAfter := c.validity.until_, subject := subject, spki := spki2,
+                   issuerUid := c.issuerUniqueId, subjectUid := c.subjectUniqueId, exts := [] },
+          key := key, builders := builders }
 
 /-- `AsIssuer(ctx)` -/
 def asIssuer (ctx : Context) : IssuerContext :=
@@ -110,16 +116,21 @@ def compile (b : Builder) (ctx : Context) (iss : IssuerContext) : R Cert.Ext :=
 
 /-- the unsigned part of `Sign`: algorithm identifiers, issuer name, compiled extensions, and the
     key-type check.  Returns the final TBS, the outer AlgorithmIdentifier and the signing key. -/
-def signBody (ctx : Context) (iss : IssuerContext) (alg : Nat) : R (Tbs × AlgId × PrivKey) := do
-  let ikey ← match iss.key with | some k => pure k | none => throw "cert: provided IssuerContext is nil. can't sign"
-  let inner ← match ctx.tbs.sigAlg with
-    | some a => pure a
-    | none => match sigAlgId alg with | some a => pure a | none => throw "cert: unknown signature algorithm"
-  let exts ← ctx.builders.mapM (compile · ctx iss)
-  let outer ← match sigAlgId alg with | some a => pure a | none => throw "cert: unknown signature algorithm"
-  let want := (sigAlgTable[alg]?.map (·.2)).getD 0
-  if ikey.keyType ≠ want then throw "cert: provided key is not compatible with the signature algorithm"
-  pure ({ ctx.tbs with sigAlg := some inner, issuer := iss.issuerDn, exts := exts }, outer, ikey)
+def signBody (ctx : Context) (iss : IssuerContext) (alg : Nat) : R (Tbs × AlgId × PrivKey) :=
+  match iss.key with
+  | none => .error "cert: provided IssuerContext is nil. can't sign"
+  | some ikey =>
+    match sigAlgId alg with
+    | none => .error "cert: unknown signature algorithm"
+    | some outer =>
+      match ctx.builders.mapM (compile · ctx iss) with
+      | .error e => .error e
+      | .ok exts =>
+        if ikey.keyType ≠ (sigAlgTable[alg]?.map (·.2)).getD 0 then
+          .error "cert: provided key is not compatible with the signature algorithm"
+        else
+          -- a preset (manipulated) inner algorithm is kept; otherwise inner = outer
+          .ok ({ ctx.tbs with sigAlg := some (ctx.tbs.sigAlg.getD outer), issuer := iss.issuerDn, exts := exts }, outer, ikey)
 
 /-! ### DER of the certificate -/
 
